@@ -434,13 +434,13 @@ func main() {
 	// fixed witnesses first
 	run("direct", e.directAfterClose)
 	run("udp-race", e.udpRace)
-	n := c.N(3, 40)
+	n := c.N(14, 120)
 	for i := 0; i < n; i++ {
 		run("tcp", func() { e.streamTunnel("tcp") })
 		run("forward", func() { e.streamTunnel("forward") })
 		run("udp", e.udpTunnel)
 		run("icmp", e.icmpTunnel)
-		if i < c.N(2, 10) {
+		if i < c.N(5, 30) {
 			run("shell", e.shellTunnel)
 			run("file", e.fileTunnel)
 		}
